@@ -4,28 +4,9 @@
   per-operation semantics to arbitrary histories over any number of handles.
 -/
 import MptModel.Lemmas.HeapOps
+import MptModel.Spec.ArrayOps
 namespace Mpt.Heap
 open Mpt
-
-/-- array operations (on handle numbers); buffer-level calls in the composition their callers use -/
-inductive Op where
-  | append (h : Nat) (bytes : List Byte)
-  | insert (h pos : Nat) (bytes : List Byte)
-  | set (h : Nat) (t : Traits) (off : Int) (bytes : List Byte) (hasSrc : Bool)
-  | slice (h off len : Nat)
-  | cut (h off len : Nat)
-  | bset (h pos : Nat) (bytes : List Byte) (hasSrc : Bool)
-  | clone (dst src : Nat)
-  | drop (h : Nat)
-  | detach (h n : Nat)
-  | reduce (h : Nat)
-  | reserve (h n : Nat) (t : Option Traits)
-  deriving Repr
-
-/-- the handle an operation works on -/
-def Op.handle : Op → Nat
-  | .append h _ | .insert h _ _ | .set h _ _ _ _ | .slice h _ _ | .cut h _ _ | .bset h _ _ _
-  | .clone h _ | .drop h | .detach h _ | .reduce h | .reserve h _ _ => h
 
 /-- handles exist; element traits passed in have no callbacks and a non-zero size -/
 def Op.wf (nh : Nat) : Op → Prop
@@ -59,9 +40,38 @@ def specRel (s : State) : Op → Vec.Vec → Vec.Vec → Prop
   | .bset _ pos bytes _, v, v' => v' = Vec.write v pos bytes
   | .clone _ src, _, v' => v' = s.abs src
   | .drop _, _, v' => v' = []
-  | .detach _ n, v, v' => ∃ k, n ≤ k ∧ v' = v.take k
+  | .detach h n, v, v' => v' = v ∨ (ownerImmutable s h = true ∧ ∃ k, n ≤ k ∧ k < v.length ∧ v' = v.take k)
   | .reduce _, v, v' => v' = v
-  | .reserve _ n _, v, v' => v' = [] ∨ ∃ k, n ≤ k ∧ v' = v.take k
+  | .reserve h _ t, v, v' => v' = v ∨ (typeDiffers s h t = true ∧ v' = [])
+
+/-- the relation the theorems prove is membership in the list of alternatives the run checks -/
+theorem specRel_iff_alts (s : State) (op : Op) (v v' : Vec.Vec) : specRel s op v v' ↔ v' ∈ specAlts s op v := by
+  cases op with
+  | append h bytes => simp [specRel, specAlts]
+  | insert h pos bytes => simp [specRel, specAlts]
+  | set h t off bytes hasSrc => simp [specRel, specAlts, Option.mem_toList, eq_comm]
+  | slice h off len => simp [specRel, specAlts]
+  | cut h off len => simp [specRel, specAlts, Option.mem_toList, eq_comm]
+  | bset h pos bytes hasSrc => simp [specRel, specAlts]
+  | clone d src => simp [specRel, specAlts]
+  | drop h => simp [specRel, specAlts]
+  | reduce h => simp [specRel, specAlts]
+  | reserve h n t =>
+    simp only [specRel, specAlts, List.mem_cons]
+    cases typeDiffers s h t <;> simp
+  | detach h n =>
+    simp only [specRel, specAlts, List.mem_cons]
+    cases ownerImmutable s h with
+    | false => simp
+    | true =>
+      simp only [true_and, if_true, List.mem_map, List.mem_range]
+      constructor
+      · rintro (e | ⟨k, h1, h2, e⟩)
+        · exact Or.inl e
+        · exact Or.inr ⟨k - n, by omega, by rw [e]; congr 1; omega⟩
+      · rintro (e | ⟨i, hi, e⟩)
+        · exact Or.inl e
+        · exact Or.inr ⟨n + i, by omega, by omega, e.symm⟩
 
 theorem exec_sem {s : State} (inv : Inv s) (op : Op) (wf : op.wf s.hs.length) :
     Sem s op.handle (specRel s op) (exec s op) := by
